@@ -80,24 +80,35 @@ MotifsOf(S, sp, isroot) ==
 \* "limit exceeded" error of its caller iff the truncated list has exactly L entries
 LimitHit(count, L) == count >= L
 
-ExpandOne(S, D, n, maxm) ==
+\* does expanding n call the trap-space solver?
+NeedsSolver(D, n) == ~D.nodes[n].expanded /\ ~IsState(D.nodes[n].space)
+\* `fail`: the solver call of this expansion raises (fault injection)
+ExpandOneF(S, D, n, maxm, fail) ==
     IF D.nodes[n].expanded THEN [d |-> D, err |-> FALSE, did |-> FALSE]
     ELSE LET D1 == ClearAttr(D, n)
              sp == D.nodes[n].space
          IN IF IsState(sp) THEN [d |-> MarkExpanded(D1, n, "plain"), err |-> FALSE, did |-> TRUE]
             ELSE LET ms == MotifsOf(S, sp, n = 1) IN
-                 IF LimitHit(Len(ms), maxm) THEN [d |-> D1, err |-> TRUE, did |-> FALSE]
+                 IF fail \/ LimitHit(Len(ms), maxm) THEN [d |-> D1, err |-> TRUE, did |-> FALSE]
                  ELSE [d |-> MarkExpanded(EnsureAll(S, D1, n, ms), n, "plain"), err |-> FALSE, did |-> TRUE]
+
+\* expansion inside a driver: counts solver calls in the frame (fr.sc) and fails the call
+\* number cfg.failat (0 = no injected fault).  Result: [d, err, did, fr]
+DoExpand(S, cfg, D, fr, n) ==
+    LET ns == NeedsSolver(D, n)
+        x  == ExpandOneF(S, D, n, cfg.maxm, ns /\ cfg.failat = fr.sc + 1)
+    IN [d |-> x.d, err |-> x.err, did |-> x.did, fr |-> IF ns THEN [fr EXCEPT !.sc = @ + 1] ELSE fr]
+ExpandOne(S, D, n, maxm) == ExpandOneF(S, D, n, maxm, FALSE)
 
 (***************************************************************************)
 (* Frames of the drivers.  Every frame has: op, done, ret, err, xl         *)
 (* (xl: ids passed to a real expansion, in order).                         *)
 (***************************************************************************)
-Idle == [op |-> "idle", done |-> TRUE, ret |-> "none", err |-> FALSE, xl |-> <<>>]
+Idle == [op |-> "idle", done |-> TRUE, ret |-> "none", err |-> FALSE, xl |-> <<>>, sc |-> 0]
 
 Finish(fr, r) == [fr EXCEPT !.done = TRUE, !.ret = r]
 Fail(fr)      == [fr EXCEPT !.done = TRUE, !.ret = "error", !.err = TRUE]
-Logged(fr, x, n) == IF x.did THEN [fr EXCEPT !.xl = Append(@, n)] ELSE fr
+Logged(fr, x, n) == IF x.did THEN [x.fr EXCEPT !.xl = Append(@, n)] ELSE x.fr
 \* a size limit stops a driver only at a node that still has to be expanded (behaviour after the C15 fix)
 SizeStop(D, lim, n) == lim # Unl /\ Len(D.nodes) >= lim /\ ~D.nodes[n].expanded
 
@@ -109,22 +120,22 @@ AppendUnseen(q, seen, nxt) ==   \* for s in q: if s not in seen: seen.add(s); nx
 
 ---------------------------------------------------------------------------
 \* node_successors(n, compute = TRUE) as a one-step driver
-ExpBegin(n) == [op |-> "exp", done |-> FALSE, ret |-> "none", err |-> FALSE, xl |-> <<>>, n |-> n]
+ExpBegin(n) == [op |-> "exp", done |-> FALSE, ret |-> "none", err |-> FALSE, xl |-> <<>>, sc |-> 0, n |-> n]
 ExpStep(S, cfg, D, fr) ==
-    LET x == ExpandOne(S, D, fr.n, cfg.maxm)
-    IN <<x.d, IF x.err THEN Fail(fr) ELSE Finish(Logged(fr, x, fr.n), "ok")>>
+    LET x == DoExpand(S, cfg, D, fr, fr.n)
+    IN <<x.d, IF x.err THEN Fail(x.fr) ELSE Finish(Logged(fr, x, fr.n), "ok")>>
 
 ---------------------------------------------------------------------------
 \* expand_bfs
 BfsBegin(n, lvl, size) ==
-    [op |-> "bfs", done |-> FALSE, ret |-> "none", err |-> FALSE, xl |-> <<>>, start |-> n,
+    [op |-> "bfs", done |-> FALSE, ret |-> "none", err |-> FALSE, xl |-> <<>>, sc |-> 0, start |-> n,
      cur |-> <<n>>, nxt |-> <<>>, seen |-> {n}, i |-> 1, lvl |-> 0, limlvl |-> lvl, limsize |-> size]
 BfsStep(S, cfg, D, fr) ==
     IF fr.i <= Len(fr.cur) THEN
         LET node == fr.cur[fr.i] IN
         IF SizeStop(D, fr.limsize, node) THEN <<D, Finish(fr, "false")>>
-        ELSE LET x == ExpandOne(S, D, node, cfg.maxm) IN
-             IF x.err THEN <<x.d, Fail(fr)>>
+        ELSE LET x == DoExpand(S, cfg, D, fr, node) IN
+             IF x.err THEN <<x.d, Fail(x.fr)>>
              ELSE LET r == AppendUnseen(SortAsc(Succs(x.d, node)), fr.seen, fr.nxt)
                   IN <<x.d, [Logged(fr, x, node) EXCEPT !.seen = r[1], !.nxt = r[2], !.i = @ + 1]>>
     ELSE IF fr.limlvl # Unl /\ fr.lvl >= fr.limlvl THEN <<D, Finish(fr, "false")>>
@@ -135,7 +146,7 @@ BfsStep(S, cfg, D, fr) ==
 \* expand_dfs.  Stack entries: [n, s, has] (has = FALSE: successors not computed yet; s is kept
 \* in the order of the python list, which is popped from the back)
 DfsBegin(n, stk, size) ==
-    [op |-> "dfs", done |-> FALSE, ret |-> "none", err |-> FALSE, xl |-> <<>>, start |-> n,
+    [op |-> "dfs", done |-> FALSE, ret |-> "none", err |-> FALSE, xl |-> <<>>, sc |-> 0, start |-> n,
      stack |-> <<[n |-> n, s |-> <<>>, has |-> FALSE]>>, seen |-> {n}, complete |-> TRUE,
      limstk |-> stk, limsize |-> size]
 RECURSIVE DropSeenBack(_, _)
@@ -145,9 +156,9 @@ DfsStep(S, cfg, D, fr) ==
     ELSE LET top  == Last(fr.stack)
              rest == Front(fr.stack) IN
          IF ~top.has /\ SizeStop(D, fr.limsize, top.n) THEN <<D, Finish(fr, "false")>>
-         ELSE LET x  == IF top.has THEN [d |-> D, err |-> FALSE, did |-> FALSE]
-                        ELSE ExpandOne(S, D, top.n, cfg.maxm) IN
-              IF x.err THEN <<x.d, Fail(fr)>>
+         ELSE LET x  == IF top.has THEN [d |-> D, err |-> FALSE, did |-> FALSE, fr |-> fr]
+                        ELSE DoExpand(S, cfg, D, fr, top.n) IN
+              IF x.err THEN <<x.d, Fail(x.fr)>>
               ELSE LET s0 == IF top.has THEN top.s ELSE SortDesc(Succs(x.d, top.n))
                        s1 == DropSeenBack(s0, fr.seen)
                        f1 == [Logged(fr, x, top.n) EXCEPT !.stack = rest]
@@ -163,7 +174,7 @@ DfsStep(S, cfg, D, fr) ==
 \* expand_to_target: BFS from the root expanding only nodes that meet the target and are not
 \* strictly inside it
 TgtBegin(target, size) ==
-    [op |-> "tgt", done |-> FALSE, ret |-> "none", err |-> FALSE, xl |-> <<>>,
+    [op |-> "tgt", done |-> FALSE, ret |-> "none", err |-> FALSE, xl |-> <<>>, sc |-> 0,
      cur |-> <<1>>, nxt |-> <<>>, seen |-> {1}, i |-> 1, target |-> target, limsize |-> size]
 TgtStep(S, cfg, D, fr) ==
     IF fr.i <= Len(fr.cur) THEN
@@ -172,8 +183,8 @@ TgtStep(S, cfg, D, fr) ==
         IF ~Consistent(sp, fr.target) \/ (Sub(sp, fr.target) /\ sp # fr.target)
         THEN <<D, [fr EXCEPT !.i = @ + 1]>>
         ELSE IF SizeStop(D, fr.limsize, node) THEN <<D, Finish(fr, "false")>>
-        ELSE LET x == ExpandOne(S, D, node, cfg.maxm) IN
-             IF x.err THEN <<x.d, Fail(fr)>>
+        ELSE LET x == DoExpand(S, cfg, D, fr, node) IN
+             IF x.err THEN <<x.d, Fail(x.fr)>>
              ELSE LET r == AppendUnseen(SortAsc(Succs(x.d, node)), fr.seen, fr.nxt)
                   IN <<x.d, [Logged(fr, x, node) EXCEPT !.seen = r[1], !.nxt = r[2], !.i = @ + 1]>>
     ELSE IF fr.nxt = <<>> THEN <<D, Finish(fr, "true")>>
@@ -196,8 +207,9 @@ EnsureExpandedAll(S, D, parent, mts) ==
 MarkSkipped(D, n) == [ClearAttr(MarkExpanded(D, n, "other"), n) EXCEPT !.nodes[n].skipped = TRUE]
 
 \* skip_to_minimal(n): returns "false" if expanded
-SkipToMinimal(S, D, n, mts) ==
+SkipToMinimal(S, D, n, mts, fail) ==
     IF D.nodes[n].expanded THEN <<D, "false">>
+    ELSE IF fail THEN <<D, "error">>
     ELSE IF Len(mts) = 1 /\ mts[1] = D.nodes[n].space
          THEN <<MarkExpanded(D, n, "other"), "true">>     \* no successors before or after: caches stay valid
     ELSE <<MarkSkipped(EnsureExpandedAll(S, D, n, mts), n), "true">>
@@ -231,9 +243,9 @@ SkipRemaining(S, D, mts) ==
 \* expand_minimal_spaces(node, size_limit, skip_ignored).  amts: all minimal traps of the start
 \* node in solver order; rem: those not yet seen as an expanded minimal node
 MinBegin(n, size, skip, amts) ==
-    [op |-> "min", done |-> FALSE, ret |-> "none", err |-> FALSE, xl |-> <<>>, start |-> n,
+    [op |-> "min", done |-> FALSE, ret |-> "none", err |-> FALSE, xl |-> <<>>, sc |-> 0, start |-> n,
      stack |-> <<[n |-> n, s |-> <<>>, has |-> FALSE]>>, seen |-> {n}, amts |-> amts,
-     rem |-> SeqToSet(amts), limsize |-> size, skip |-> skip]
+     rem |-> SeqToSet(amts), limsize |-> size, skip |-> skip, started |-> FALSE]
 \* the inner while loop over `successors` (from the back)
 RECURSIVE MinFilter(_, _, _, _, _, _)
 MinFilter(S, D, q, seen, covers, fr) ==
@@ -243,14 +255,17 @@ MinFilter(S, D, q, seen, covers, fr) ==
                                    Front(q), seen, covers, fr)
     ELSE <<D, q>>
 MinStep(S, cfg, D, fr) ==
-    IF fr.stack = <<>> THEN
+    IF ~fr.started THEN      \* the initial trappist("min") call
+        IF cfg.failat = fr.sc + 1 THEN <<D, Fail([fr EXCEPT !.sc = @ + 1])>>
+        ELSE <<D, [fr EXCEPT !.sc = @ + 1, !.started = TRUE]>>
+    ELSE IF fr.stack = <<>> THEN
         IF fr.rem = {} THEN <<D, Finish(fr, "true")>> ELSE <<D, Fail(fr)>>   \* assert len(minimal_traps) == 0
     ELSE LET top  == Last(fr.stack)
              rest == Front(fr.stack) IN
          IF ~top.has /\ SizeStop(D, fr.limsize, top.n) THEN <<D, Finish(fr, "false")>>
-         ELSE LET x == IF top.has THEN [d |-> D, err |-> FALSE, did |-> FALSE]
-                       ELSE ExpandOne(S, D, top.n, cfg.maxm) IN
-              IF x.err THEN <<x.d, Fail(fr)>>
+         ELSE LET x == IF top.has THEN [d |-> D, err |-> FALSE, did |-> FALSE, fr |-> fr]
+                       ELSE DoExpand(S, cfg, D, fr, top.n) IN
+              IF x.err THEN <<x.d, Fail(x.fr)>>
               ELSE LET s0  == IF top.has THEN top.s ELSE SortDesc(Succs(x.d, top.n))
                        sp  == x.d.nodes[top.n].space
                        cov == \E t \in fr.rem : Sub(t, sp)
@@ -378,7 +393,7 @@ Reclaim(D) == [D EXCEPT !.nodes = [i \in DOMAIN D.nodes |->
 \* outside the expanded siblings' motifs.  The query outcome is an oracle input (b); the frame
 \* records `unsound` if a successor with an attractor of its own is pruned.
 ASeedsBegin(size, amts) ==
-    [op |-> "aseeds", done |-> FALSE, ret |-> "none", err |-> FALSE, xl |-> <<>>,
+    [op |-> "aseeds", done |-> FALSE, ret |-> "none", err |-> FALSE, xl |-> <<>>, sc |-> 0,
      phase |-> "min", sub |-> MinBegin(1, size, FALSE, amts), limsize |-> size,
      stack |-> <<[n |-> 1, s |-> <<>>, has |-> FALSE]>>, seen |-> {1},
      node |-> 0, succ |-> <<>>, emot |-> {}, unsound |-> FALSE]
@@ -397,7 +412,7 @@ ASeedsOracleChoices(S, D, fr) ==
 ASeedsStep(S, cfg, D, fr, b) ==
     IF fr.phase = "min" THEN
         LET r == MinStep(S, cfg, D, fr.sub)
-            f == [fr EXCEPT !.sub = r[2], !.xl = r[2].xl] IN
+            f == [fr EXCEPT !.sub = r[2], !.xl = r[2].xl, !.sc = r[2].sc] IN
         IF r[2].done THEN (IF r[2].err THEN <<r[1], Fail(f)>> ELSE <<r[1], [f EXCEPT !.phase = "pop"]>>)
         ELSE <<r[1], f>>
     ELSE IF fr.phase = "pop" THEN
@@ -405,9 +420,9 @@ ASeedsStep(S, cfg, D, fr, b) ==
         ELSE LET top  == Last(fr.stack)
                  rest == Front(fr.stack) IN
              IF ~top.has /\ SizeStop(D, fr.limsize, top.n) THEN <<D, Finish(fr, "false")>>
-             ELSE LET x == IF top.has THEN [d |-> D, err |-> FALSE, did |-> FALSE]
-                           ELSE ExpandOne(S, D, top.n, cfg.maxm) IN
-                  IF x.err THEN <<x.d, Fail(fr)>>
+             ELSE LET x == IF top.has THEN [d |-> D, err |-> FALSE, did |-> FALSE, fr |-> fr]
+                           ELSE DoExpand(S, cfg, D, fr, top.n) IN
+                  IF x.err THEN <<x.d, Fail(x.fr)>>
                   ELSE LET s0 == IF top.has THEN top.s ELSE SortDesc(Succs(x.d, top.n))
                            em == {x.d.edges[<<top.n, c>>][1] : c \in {y \in Succs(x.d, top.n) : x.d.nodes[y].expanded}}
                        IN <<x.d, [Logged(fr, x, top.n) EXCEPT !.stack = rest, !.phase = "filter",
@@ -420,8 +435,9 @@ ASeedsStep(S, cfg, D, fr, b) ==
                                                      [n |-> s, s |-> <<>>, has |-> FALSE]>>]
              IN IF s \in fr.seen THEN <<D, [fr EXCEPT !.succ = Front(@)]>>
                 ELSE IF D.nodes[s].expanded THEN <<D, push>>
-                ELSE IF b THEN <<D, push>>
-                ELSE <<D, [fr EXCEPT !.succ = Front(@), !.unsound = @ \/ MustVisit(S, D, s, fr.emot)]>>
+                ELSE IF cfg.failat = fr.sc + 1 THEN <<D, Fail([fr EXCEPT !.sc = @ + 1])>>   \* the reduced-STG query raises
+                ELSE IF b THEN <<D, [push EXCEPT !.sc = @ + 1]>>
+                ELSE <<D, [fr EXCEPT !.sc = @ + 1, !.succ = Front(@), !.unsound = @ \/ MustVisit(S, D, s, fr.emot)]>>
 
 ---------------------------------------------------------------------------
 \* dispatch
